@@ -6,6 +6,15 @@ import itertools, math
 from fractions import Fraction as F
 from . import common as C
 
+CLAIM = dict(
+    text="Machine-checked theorems (coq/Props/C20.v, closed under the global context) over an executable model of subsample/get_time_shift/"
+         "get_Pk/PGF helpers/get_Pnk/estimate_R0 for ALL grids, series and degree sequences; the model is tied to /repo on every run by "
+         "running the extracted model and the implementation on the same inputs (exhaustive small grids + random) and by evaluating the L0 "
+         "specification on the implementation's outputs.",
+    design='DESIGN.md section 4, C20',
+    technique='Coq proof over hand-written model + extracted-model/implementation correspondence',
+    note="Derivative clause is proved as: psi' and psi'' are the formal derivatives of the polynomial psi, and the formal derivative satisfies the difference-quotient identity (algebraic statement over Q, no real analysis).")
+
 
 def gen_grid(rng, n, lo=0):
     """non-decreasing dyadic grid with ties and repeats"""
